@@ -170,7 +170,7 @@ pub fn seipd1_seal(cipher: u64, bs: usize, key: &[u8], prefix: &[u8], pt: &[u8])
     Ok(body)
 }
 
-fn keylen_bs(cipher: u64) -> (usize, usize) {
+pub fn keylen_bs(cipher: u64) -> (usize, usize) {
     match cipher { 1 | 3 | 4 => (16, 8), 2 => (24, 8), 7 | 11 => (16, 16), 8 | 12 => (24, 16), _ => (32, 16) }
 }
 
